@@ -31,6 +31,7 @@ def run(prog, chk):
         "markGlyphNames holds exactly the glyphs that got a mark class (same guards as the class insertion) (R06.11)",
         "aliased list padding ([[]] * n) is never mutated through an element (R06.12)",
         "the above / below anchor filters of abvm / blwm are complementary by construction and each feature uses its own (R06.13)",
+        "the ligature component number is the whole trailing run of digits of the anchor name (regex AST of LIGA_NUM_RE) (R06.14)",
     ]
     chk.not_decided += ["the offsets a shaper computes", "lookup grouping / graph colouring result", "which script a glyph is routed to (abvm / blwm classification data)", "contextual anchors' generated rules"]
     chk.guard(r061, prog, chk)
@@ -45,6 +46,7 @@ def run(prog, chk):
     chk.guard(r0611, prog, chk)
     chk.guard(r0612, prog, chk)
     chk.guard(r0613, prog, chk)
+    chk.guard(r0614, prog, chk)
     from .rounding import check_no_truthiness_on_coordinates
     n = check_no_truthiness_on_coordinates(prog, chk, "R06.9", [MARK, "ufo2ft.featureWriters.baseFeatureWriter"])
     need(n >= 40, "truthiness scan found too few tests")
@@ -664,7 +666,68 @@ def r0613(prog, chk):
     chk.minimum("R06.13", 2)
 
 
+
+# ----------------------------------------------------------------------------- R06.14
+def r0614(prog, chk):
+    """The component number of a ligature anchor is the WHOLE run of digits at the end of its name (`top_12` is component 12):
+    in the pattern the writer matches names with, nothing in front of the digits group can swallow digits greedily."""
+    import re._parser as sre
+    ix = prog.ix
+    mod = ix.get_module(MARK)
+    e = mod.constants.get("LIGA_NUM_RE")
+    need(isinstance(e, ast.Call) and A.callee_name(e) == "compile" and e.args and isinstance(e.args[0], ast.Constant) and isinstance(e.args[0].value, str),
+         "cannot interpret LIGA_NUM_RE: not re.compile(<literal>)")
+    pat = e.args[0].value
+    try:
+        items = list(sre.parse(pat))
+    except Exception as ex:  # noqa
+        raise AnalysisError(f"cannot parse LIGA_NUM_RE {pat!r}: {ex}")
+
+    def can_match_digit(item) -> bool:
+        op, av = item
+        name = str(op)
+        if name == "ANY":
+            return True
+        if name == "LITERAL":
+            return chr(av).isdigit()
+        if name == "NOT_LITERAL":
+            return True
+        if name == "IN":
+            neg = any(str(o) == "NEGATE" for o, _ in av)
+            hit = False
+            for o, a in av:
+                so = str(o)
+                if so == "CATEGORY" and str(a) in ("CATEGORY_DIGIT", "CATEGORY_WORD"):
+                    hit = True
+                elif so == "CATEGORY" and str(a) in ("CATEGORY_NOT_SPACE",):
+                    hit = True
+                elif so == "RANGE" and a[0] <= ord("9") and a[1] >= ord("0"):
+                    hit = True
+                elif so == "LITERAL" and chr(a).isdigit():
+                    hit = True
+            return (not hit) if neg else hit
+        return True  # unknown construct: assume it can
+    grp = [i for i, (op, av) in enumerate(items) if str(op) == "SUBPATTERN" and av[0] == 1]
+    need(len(grp) == 1, f"cannot interpret LIGA_NUM_RE {pat!r}: group 1")
+    gi = grp[0]
+    inner = items[gi][1][3]
+    okg = len(inner) == 1 and str(inner[0][0]) == "MAX_REPEAT" and inner[0][1][0] >= 1 and len(inner[0][1][2]) == 1 and str(inner[0][1][2][0][0]) == "IN" \
+        and any(str(o) == "CATEGORY" and str(a) == "CATEGORY_DIGIT" for o, a in inner[0][1][2][0][1])
+    end_ok = gi + 1 < len(items) and str(items[gi + 1][0]) == "AT" and "END" in str(items[gi + 1][1])
+    greedy_before = False
+    if gi > 0:
+        op, av = items[gi - 1]
+        if str(op) == "MAX_REPEAT" and any(can_match_digit(x) for x in av[2]):
+            greedy_before = True
+    chk.ob("R06.14", "LIGA_NUM_RE|the component number is the whole trailing run of digits", okg and end_ok and not greedy_before, f"{mod.relpath}:{e.lineno}", detail=pat,
+           message=f"LIGA_NUM_RE {pat!r}: a greedy sub-pattern in front of the digits group can swallow digits (or the group is not 'one or more digits up to the end'): "
+                   f"`top_12` is read as component 2 of key `top_1` - anchors of components 10 and above attach to the wrong component or not at all")
+    chk.minimum("R06.14", 1)
+
+
 MUTANTS = [
+    M("greedy prefix in the ligature-number pattern (seeded C06g)", "ufo2ft/featureWriters/markFeatureWriter.py", None,
+      "re.compile(r'.*?(\\d+)$')", "re.compile(r'.*(\\d+)$')", rule="R06.14"),
     M("below-mark filter decided on its own (seeded C06f)", "ufo2ft/featureWriters/markFeatureWriter.py", "MarkFeatureWriter._isBelowMark",
       "not self._isAboveMark(anchor)", "anchor.name in self.blwmAnchorNames or anchor.name.startswith('bottom')", rule="R06.13"),
     M("blwm uses the above-mark filter", "ufo2ft/featureWriters/markFeatureWriter.py", "MarkFeatureWriter._makeAbvmOrBlwmFeature",
